@@ -74,6 +74,7 @@ type interpreter struct {
 	ifStats            IfConvStats
 	freshMaps          map[*omap]struct{}
 	icptPure           map[*ssa.Function]bool
+	mapOrderCache      map[*cfunc]bool
 }
 
 type deferred struct {
@@ -362,7 +363,7 @@ func visitInstr(fr *frame, ci *cinstr) continuation {
 
 	case *ssa.Range:
 		it := i.rangeIter(fr.get(ci.x), instr.X.Type())
-		if oi, ok := it.(*omapIter); ok && len(oi.keys) >= 2 && len(oi.keys) <= 3 && i.cfg != nil && i.cfg.MapOrderFuncs[fr.cf.name] {
+		if oi, ok := it.(*omapIter); ok && len(oi.keys) >= 2 && len(oi.keys) <= 3 && i.cfg != nil && i.mapOrderIn(fr.cf) {
 			i.permuteIter(oi)
 		}
 		fr.regs[ci.dst] = it
@@ -937,4 +938,25 @@ func trapMsg(r interface{}) string {
 		return r.why
 	}
 	return fmt.Sprint(r)
+}
+
+// mapOrderIn: does the spec ask for every iteration order of small maps in this function?
+// Keys of MapOrderFuncs are exact function names, or substrings when they start with "~".
+func (i *interpreter) mapOrderIn(cf *cfunc) bool {
+	if v, ok := i.mapOrderCache[cf]; ok {
+		return v
+	}
+	r := i.cfg.MapOrderFuncs[cf.name]
+	if !r {
+		for k := range i.cfg.MapOrderFuncs {
+			if strings.HasPrefix(k, "~") && strings.Contains(cf.name, k[1:]) {
+				r = true
+			}
+		}
+	}
+	if i.mapOrderCache == nil {
+		i.mapOrderCache = map[*cfunc]bool{}
+	}
+	i.mapOrderCache[cf] = r
+	return r
 }
